@@ -41,15 +41,29 @@ pub fn convert_node(ast: &ASTTy, imp: &mut Imports, state: &State, ctx: &Context
             from,
             import,
             alias,
-        } => Core::Import {
-            from: if let Some(from) = from {
-                Some(Box::from(convert_node(from, imp, state, ctx)?))
-            } else {
-                None
-            },
-            import: convert_vec(import, imp, state, ctx)?,
-            alias: convert_vec(alias, imp, state, ctx)?,
-        },
+        } => {
+            // Names in an import are Python's, not Mamba types: `List` stays `List`.
+            let verbatim = |ast: &ASTTy, imp: &mut Imports| match &ast.node {
+                NodeTy::Id { lit } => Ok(Core::Id { lit: lit.clone() }),
+                _ => convert_node(ast, imp, state, ctx),
+            };
+
+            Core::Import {
+                from: if let Some(from) = from {
+                    Some(Box::from(verbatim(from, imp)?))
+                } else {
+                    None
+                },
+                import: import
+                    .iter()
+                    .map(|ast| verbatim(ast, imp))
+                    .collect::<Result<_, _>>()?,
+                alias: alias
+                    .iter()
+                    .map(|ast| verbatim(ast, imp))
+                    .collect::<Result<_, _>>()?,
+            }
+        }
 
         NodeTy::VariableDef { .. } | NodeTy::FunDef { .. } | NodeTy::FunArg { .. } => {
             convert_def(ast, imp, state, ctx)?
